@@ -420,6 +420,18 @@ func blobEqTerm(fr *frame, a, b *blobCell) *term.Term {
 // strLessTerm: lexicographic x < y for fixed-length strings.
 func strLessTerm(fr *frame, x, y value) *term.Term {
 	a, b := toks(segsOf(x)), toks(segsOf(y))
+	// opaque codec output: the byte order of two encodings is unknown to the engine. A stated
+	// approximation (it only fixes the ORDER in which equal-ranked data is listed, e.g. the result
+	// list of a prefix query): encodings are ordered by creation, literals come before them.
+	if len(a) == 1 && len(b) == 1 && a[0].kind == sBlob && b[0].kind == sBlob {
+		return term.BoolConst(a[0].blob.id < b[0].blob.id)
+	}
+	if len(a) == 1 && a[0].kind == sBlob && allLit(b) {
+		return term.False
+	}
+	if len(b) == 1 && b[0].kind == sBlob && allLit(a) {
+		return term.True
+	}
 	for _, t := range append(append([]tok{}, a...), b...) {
 		if t.kind == sDec || t.kind == sBlob {
 			panic(unsupported("ordering comparison of variable-length symbolic strings"))
@@ -687,4 +699,13 @@ func jsonFirstChars(fr *frame, b *blobCell) string {
 		return ""
 	}
 	return ""
+}
+
+func allLit(ts []tok) bool {
+	for _, t := range ts {
+		if t.kind != sLit {
+			return false
+		}
+	}
+	return true
 }
